@@ -11,7 +11,7 @@ the ghost set, and the invariant afterwards.  Bounded sequences give readable co
 from typing import List
 
 from vf.driver import Q
-from vf.h import P, reached, note, lib_errors
+from vf.h import REPLAY, P, reached, note, lib_errors
 
 from bromelia import _internal_utils as IU
 from bromelia._internal_utils import SessionHandler
@@ -165,7 +165,7 @@ def step(init0: int, id0: int, now: int, who: int, prev: int) -> bool:
     ident, prev_ident = IDENT[who], IDENT[prev]
     data = _generate(P["kind"], ident, prev_ident)
     reached()
-    note(pre=(init0, id0, now), identity=ident, previous=prev_ident, session_id=data.decode())
+    if REPLAY: note(pre=(init0, id0, now), identity=ident, previous=prev_ident, session_id=data.decode())
     w = _witness(data, ident)
     if w is None:
         return False
@@ -203,7 +203,7 @@ def sequence(init0: int, id0: int, now: int, who: List[int], prevs: List[int]) -
             return False
         out.append((ident, wit[0], wit[1]))
     reached()
-    note(pre=(init0, id0, now), ids=[x.decode() for x in raw])
+    if REPLAY: note(pre=(init0, id0, now), ids=[x.decode() for x in raw])
     n = len(out)
     return all(out[i] != out[j] for i in range(n) for j in range(i + 1, n))
 
